@@ -421,7 +421,7 @@ pub fn make_inputs(cfg: &Cfg, rng: &mut Rng, tier: Tier, budget: usize, sentence
     out
 }
 
-const FLAVOURS: [&str; 4] = ["lazy counting struct", "Vec", "iter::from_fn", "lazy counting struct that is not fused (40 further tokens behind the None)"];
+const FLAVOURS: [&str; 5] = ["lazy counting struct", "Vec", "iter::from_fn", "lazy counting struct that is not fused (40 further tokens behind the None)", "endless lazy source with size hint (usize::MAX, None)"];
 
 #[derive(Debug, Clone, PartialEq, Eq)]
 enum Expect {
@@ -558,7 +558,11 @@ impl EmitRun {
             let ks = word.iter().map(|k| k.to_string()).collect::<Vec<_>>().join(" ");
             lines.push(format!("0 0 {ks}"));
             meta.push((i, 0, 0));
-            let fl = 1 + (i % 3);
+            let mut fl = 1 + (i % 3);
+            if i % 4 == 3 && matches!(lr::lr_parse(&r.ctx, &r.lr1, word, None), ParseOutcome::Reject(Some(_))) {
+                // must be rejected at one of its own tokens: the source may be endless behind them
+                fl = 4;
+            }
             lines.push(format!("{fl} 1 {ks}"));
             meta.push((i, fl, 1));
         }
@@ -711,13 +715,19 @@ impl EmitRun {
                         w.count("not-applicable:sentence");
                         continue;
                     }
-                    if observed_ok || kind == "PANIC" {
+                    if kind == "PANIC" {
+                        // "parse returns Err(..)": a panic is not a return (C01 reports it as well)
+                        w.eval();
+                        w.violation("panicked-instead-of-returning-an-error", &format!("the emitted parse panicked on a non-sentence: {rest}"), input_desc());
+                        continue;
+                    }
+                    if observed_ok {
                         w.count("masked_upstream:non-sentence-not-rejected");
                         continue;
                     }
                     w.eval();
                     w.count(&format!("workload:{wtag}"));
-                    w.count(&format!("iterator:{}", ["lazy-struct", "vec", "from_fn", "not-fused"][*flavour]));
+                    w.count(&format!("iterator:{}", ["lazy-struct", "vec", "from_fn", "not-fused", "endless"][*flavour]));
                     match &expect {
                         Expect::ErrSome(i) => {
                             w.count("rejections:offending-token");
@@ -808,7 +818,7 @@ impl Engine for EmitRun {
         json!({"class": "generated-grammar", "grammar_src": c.src})
     }
     fn rule(&self, prop: &str) -> String {
-        let common = "grammars: the repository examples (structure only), the textbook corpus, combinator-built and random grammars, rendered with random fieldset styles / used-skipped masks and payload types from a pool of 12 (usize, String, user structs, Vec, Option, nested BTreeMap, unit, Option<Box<Vec>>, Vec<Option<Box<Rc>>>, pairs with equal argument lists under different callees); names: default, shuffled, confusable, emitter vocabulary, concatenation twins, the hostile pools of C05; each accepted grammar is compiled with rustc and run on: all strings up to a length bound (W1), random sentences (W2), a prefix-extension sweep p·t for every prefix p of short sentences and every terminal t (W3), 1-2 token edits (W4), long sentences up to 5000 tokens (W5, thorough); every input twice (lazy counting iterator + position payloads; Vec, iter::from_fn or a lazy iterator that is NOT fused - 40 tokens that are not part of the input follow the None - + pseudo-random payloads). One evaluation = one execution of the compiled parse()";
+        let common = "grammars: the repository examples (structure only), the textbook corpus, combinator-built and random grammars, rendered with random fieldset styles / used-skipped masks and payload types from a pool of 12 (usize, String, user structs, Vec, Option, nested BTreeMap, unit, Option<Box<Vec>>, Vec<Option<Box<Rc>>>, pairs with equal argument lists under different callees); names: default, shuffled, confusable, emitter vocabulary, concatenation twins, the hostile pools of C05; each accepted grammar is compiled with rustc and run on: all strings up to a length bound (W1), random sentences (W2), a prefix-extension sweep p·t for every prefix p of short sentences and every terminal t (W3), 1-2 token edits (W4), long sentences up to 5000 tokens (W5, thorough); every input twice (lazy counting iterator + position payloads; Vec, iter::from_fn, a lazy iterator that is NOT fused - 40 tokens that are not part of the input follow the None -, or, for inputs rejected at one of their own tokens, an ENDLESS lazy source whose size hint is (usize::MAX, None) + pseudo-random payloads). One evaluation = one execution of the compiled parse()";
         match prop {
             "C01" => format!("{common}; compared with membership decided by the canonical LR(1) reference parser, cross-checked by a definitional chart recogniser (<=40 tokens) and an Earley recogniser (<=120 tokens). Distinct non-trivial = distinct (grammar, token sequence) with >=2 productions and >=1 token."),
             "C02" => format!("{common}; for accepted inputs the {{:?}} rendering of the returned tree is compared with the rendering of the reference derivation (validated by a definitional derivation checker). Distinct non-trivial = distinct (grammar, sentence) whose tree has >=2 used leaves."),
